@@ -186,6 +186,47 @@ pub fn gen_plan(g: &mut G, max_payload: usize) -> BodyPlan {
     }
 }
 
+/// A fault-free plan for a given payload and extra header fields (framing, chunking,
+/// segmentation and coalescing drawn from the tape).
+pub fn plan_from_payload(g: &mut G, payload: Vec<u8>, mut headers: Vec<(String, Vec<u8>)>) -> BodyPlan {
+    let framing = *g.pick(&[Framing::Length, Framing::Chunked, Framing::Close]);
+    let len = payload.len();
+    let (chunks, styles) = if framing == Framing::Chunked { gen_chunks(g, len) } else { (vec![], vec![]) };
+    match framing {
+        Framing::Length => headers.push(("Content-Length".into(), len.to_string().into_bytes())),
+        Framing::Chunked => headers.push(("Transfer-Encoding".into(), b"chunked".to_vec())),
+        Framing::Close => {}
+    }
+    let mut wire = Wire::default();
+    wire.bytes = httpref::encode_head(200, "OK", &headers);
+    wire.head_len = wire.bytes.len();
+    httpref::encode_body(&mut wire, framing, &payload, &chunks, b"0", &[]);
+    let (segs, seg_name) = gen::segmentation(g, wire.bytes.len(), &wire.targets.clone());
+    BodyPlan {
+        host_is_domain: false,
+        method: "GET",
+        status: 200,
+        framing,
+        payload,
+        chunk_lens: chunks.iter().map(|c| c.len).collect(),
+        chunk_style: styles,
+        garbage: 0,
+        declared_len: len,
+        script: Script::from_wire(&wire.bytes, &segs, End::Fin),
+        wire,
+        seg_name,
+        nsegs: segs.len(),
+        end: End::Fin,
+        faults: ConnFaults { window: 65536, coalesce: g.chance(1, 4), ..Default::default() },
+        read_mode: ReadMode::Bytes,
+        rereads: 0,
+        read_timeout_ms: 30_000,
+        extra_headers: headers,
+        damage: String::new(),
+        cut_at: None,
+    }
+}
+
 impl BodyPlan {
     pub fn shape(&self) -> String {
         let cc = match self.chunk_lens.len() {
@@ -322,10 +363,15 @@ pub const HOST_NAME: &str = "origin.test";
 
 /// The caller program: executed on simulated thread 0.
 pub fn caller(plan: &BodyPlan, stop_on_block: bool) -> Observed {
+    caller_with(plan, stop_on_block, |rb| rb)
+}
+
+pub fn caller_with(plan: &BodyPlan, stop_on_block: bool, tweak: impl FnOnce(attohttpc::RequestBuilder) -> attohttpc::RequestBuilder) -> Observed {
     let mut o = Observed::default();
     let url = format!("http://{}/body", if plan.host_is_domain { HOST_NAME } else { HOST_IP });
     let rb = attohttpc::RequestBuilder::new(attohttpc::Method::from_bytes(plan.method.as_bytes()).unwrap(), &url)
         .read_timeout(Duration::from_millis(plan.read_timeout_ms));
+    let rb = tweak(rb);
     let t_in = attosim::now_ns();
     let resp = rb.send();
     o.send_t = (t_in, attosim::now_ns());
